@@ -321,12 +321,193 @@ theorem denL_sumSafe (S : LeafSem card leaf) (b : Bool) {e : Expr} {rs : List Va
     (hr : ∀ v ∈ rs, S.Rng v) (σ : Val) :
     denL card leaf (sumSafe e rs b) σ =
       sumVars card ((sortVars rs).map (·.name)) (fun τ => denL card leaf e τ) σ := by
-  sorry
+  cases b with
+  | false => exact denL_sumSafe_false e rs σ
+  | true =>
+    have hr' : ∀ v ∈ sortVars rs, S.Rng v := fun v hv => hr v ((mem_sortVars v rs).1 hv)
+    unfold sumSafe
+    simp only []
+    split
+    · rename_i hemp
+      have : sortVars rs = [] := by simpa using hemp
+      rw [this]; rfl
+    · split
+      · rename_i hz
+        rw [clean_not_zero he.1] at hz; cases hz
+      · simp only [if_true]
+        exact denL_sumSimplify S he hr'
+          (TrsoAux.nodup_map_name (TrsoAux.sortVars_nodup rs) (fun v hv => TrsoAux.plainReg_eq (hr' v hv).1)) σ
+
+namespace TrsoAux
+
+theorem denLProd_append (as bs : List Expr) (σ : Val) :
+    denLProd card leaf (as ++ bs) σ = denLProd card leaf as σ * denLProd card leaf bs σ := by
+  rw [denLProd_eq, denLProd_eq, denLProd_eq, List.map_append, List.prod_append]
+
+/-- re-ordering the variables of an admissible leaf does not change it -/
+theorem denL_leaf_sort (S : LeafSem card leaf) {pop : Option Var} {c p : List Var} (h : S.Adm pop c p) (σ : Val) :
+    denL card leaf (.prob pop (sortByName c) (sortByName p)) σ = denL card leaf (.prob pop c p) σ := by
+  obtain ⟨w, hw, hall⟩ := h
+  simp only [denL]
+  rw [S.leaf_eq pop w c p hw hall σ,
+    S.leaf_eq pop w _ _ hw (by intro v hv; exact hall v (by simpa using hv)) σ]
+  rw [S.congr pop w (vnames (sortByName c ++ sortByName p)) (vnames (c ++ p)) (by intro v; simp [vnames]),
+    S.congr pop w (vnames (sortByName p)) (vnames p) (by intro v; simp [vnames])]
+
+/-- over a duplicate-free range the sorted range sums the same -/
+theorem sumVars_sortVars_nodup (card : Name → Nat) {r : List Var} (hr : r.Nodup) (f : Val → Rat) :
+    sumVars card ((sortVars r).map (·.name)) f = sumVars card (r.map (·.name)) f := by
+  apply sumVars_perm
+  exact ((List.perm_ext_iff_of_nodup (sortVars_nodup r) hr).2 (fun v => mem_sortVars v r)).map _
+
+mutual
+theorem denL_canon_aux (S : LeafSem card leaf) : ∀ (x e : Expr), Good S x → SumND x → canon x = .ok e →
+    ∀ σ, denL card leaf e σ = denL card leaf x σ
+  | .prob pop c p, e, hx, _, h => by
+    simp [canon] at h; cases h
+    intro σ; exact denL_leaf_sort S hx.2 σ
+  | .prod fs, e, hx, hnd, h => by
+    simp only [canon, bind, Except.bind] at h
+    split at h
+    · cases h
+    · rename_i es hes; cases h
+      intro σ
+      rw [denL_productSafe, ← denLProd_eq, denLProd_flattenExprs,
+        denL_canonFlat_aux S fs es ⟨hx.1, hx.2⟩ hnd hes σ]
+      simp only [denL]
+  | .sum x r, e, hx, hnd, h => by
+    simp only [canon, bind, Except.bind] at h
+    split at h
+    · cases h
+    · rename_i x' hx'; cases h
+      intro σ
+      have gx : Good S x := ⟨hx.1, hx.2.1⟩
+      have gx' : Good S x' := good_canonicalize S gx hx'
+      rw [denL_sumSafe S true gx' hx.2.2 σ]
+      have : (fun τ => denL card leaf x' τ) = fun τ => denL card leaf x τ :=
+        funext (denL_canon_aux S x x' gx hnd.1 hx')
+      rw [this, sumVars_sortVars_nodup card hnd.2]
+      simp only [denL]
+  | .frac n d, e, hx, hnd, h => by
+    simp only [canon, bind, Except.bind] at h
+    split at h
+    · cases h
+    · rename_i n' hn'
+      split at h
+      · cases h
+      · rename_i d' hd'
+        simp only [pure, Except.pure] at h
+        have gn : Good S n := ⟨hx.1.1, hx.2.1⟩
+        have gd : Good S d := ⟨hx.1.2, hx.2.2⟩
+        have gn' : Good S n' := good_canonicalize S gn hn'
+        have gd' : Good S d' := good_canonicalize S gd hd'
+        have ihn := denL_canon_aux S n n' gn hnd.1 hn'
+        have ihd := denL_canon_aux S d d' gd hnd.2 hd'
+        intro σ
+        have hfrac : denL card leaf (.frac n d) σ = denL card leaf n σ / denL card leaf d σ := by
+          simp only [denL]
+        rw [hfrac, ← ihn σ, ← ihd σ]
+        split at h
+        · rename_i h1
+          have he : n' = e := Except.ok.inj h
+          subst he
+          have hd1 : d' = .one := by cases d' <;> simp [isOne] at h1; rfl
+          subst hd1
+          simp [denL]
+        · split at h
+          · rename_i hq
+            cases h
+            have hnd' := exprEq_sound n' d' hq
+            subst hnd'
+            simp only [denL]
+            exact (div_self (ne_of_gt (good_pos S gn' σ))).symm
+          · split at h
+            · cases h
+            · rename_i rv hrv
+              cases h
+              rw [denL_postFrac S (good_truediv S gn' gd' hrv) σ, denL_truediv hrv σ]
+  | .one, e, _, _, h => by simp [canon] at h; cases h; intro σ; rfl
+  | .zero, e, hx, _, h => hx.1.elim
+  | .q _ _, e, hx, _, h => hx.1.elim
+theorem denL_canonFlat_aux (S : LeafSem card leaf) : ∀ (xs es : List Expr), GoodList S xs → SumNDList xs →
+    canonFlat xs = .ok es → ∀ σ, denLProd card leaf es σ = denLProd card leaf xs σ
+  | [], es, _, _, h => by simp [canonFlat] at h; cases h; intro σ; rfl
+  | .prod gs :: xs, es, hx, hnd, h => by
+    simp only [canonFlat, bind, Except.bind] at h
+    split at h
+    · cases h
+    · rename_i gs' hgs
+      split at h
+      · cases h
+      · rename_i xs' hxs
+        cases h
+        intro σ
+        rw [denLProd_append]
+        simp only [denLProd, denL]
+        rw [denL_canonFlat_aux S gs gs' ⟨hx.1.1, hx.2.1⟩ hnd.1 hgs σ,
+          denL_canonFlat_aux S xs xs' ⟨hx.1.2, hx.2.2⟩ hnd.2 hxs σ]
+  | .prob pop c p :: xs, es, hx, hnd, h => by
+    simp only [canonFlat, bind, Except.bind] at h
+    split at h
+    · cases h
+    · rename_i x' hx'
+      split at h
+      · cases h
+      · rename_i xs' hxs
+        cases h
+        intro σ
+        simp only [denLProd]
+        rw [denL_canon_aux S _ x' ⟨hx.1.1, hx.2.1⟩ hnd.1 hx' σ,
+          denL_canonFlat_aux S xs xs' ⟨hx.1.2, hx.2.2⟩ hnd.2 hxs σ]
+  | .sum x r :: xs, es, hx, hnd, h => by
+    simp only [canonFlat, bind, Except.bind] at h
+    split at h
+    · cases h
+    · rename_i x' hx'
+      split at h
+      · cases h
+      · rename_i xs' hxs
+        cases h
+        intro σ
+        simp only [denLProd]
+        rw [denL_canon_aux S _ x' ⟨hx.1.1, hx.2.1⟩ hnd.1 hx' σ,
+          denL_canonFlat_aux S xs xs' ⟨hx.1.2, hx.2.2⟩ hnd.2 hxs σ]
+  | .frac n d :: xs, es, hx, hnd, h => by
+    simp only [canonFlat, bind, Except.bind] at h
+    split at h
+    · cases h
+    · rename_i x' hx'
+      split at h
+      · cases h
+      · rename_i xs' hxs
+        cases h
+        intro σ
+        simp only [denLProd]
+        rw [denL_canon_aux S _ x' ⟨hx.1.1, hx.2.1⟩ hnd.1 hx' σ,
+          denL_canonFlat_aux S xs xs' ⟨hx.1.2, hx.2.2⟩ hnd.2 hxs σ]
+  | .one :: xs, es, hx, hnd, h => by
+    simp only [canonFlat, bind, Except.bind] at h
+    split at h
+    · cases h
+    · rename_i x' hx'
+      split at h
+      · cases h
+      · rename_i xs' hxs
+        cases h
+        intro σ
+        simp only [denLProd]
+        rw [denL_canon_aux S _ x' ⟨hx.1.1, hx.2.1⟩ hnd.1 hx' σ,
+          denL_canonFlat_aux S xs xs' ⟨hx.1.2, hx.2.2⟩ hnd.2 hxs σ]
+  | .zero :: _, _, hx, _, _ => hx.1.1.elim
+  | .q _ _ :: _, _, hx, _, _ => hx.1.1.elim
+end
+
+end TrsoAux
 
 /-- **`canonicalize` keeps the denotation of every good expression** -/
 theorem denL_canon (S : LeafSem card leaf) {e e' : Expr} (he : Good S e) (hnd : SumND e) (h : canon e = .ok e') (σ : Val) :
-    denL card leaf e' σ = denL card leaf e σ := by
-  sorry
+    denL card leaf e' σ = denL card leaf e σ :=
+  TrsoAux.denL_canon_aux S e e' he hnd h σ
 
 theorem denL_canonicalize (S : LeafSem card leaf) {e e' : Expr} (he : Good S e) (hnd : SumND e)
     (h : canonicalize e = .ok e') (σ : Val) :
@@ -335,8 +516,8 @@ theorem denL_canonicalize (S : LeafSem card leaf) {e e' : Expr} (he : Good S e) 
 /-- `x.simplify()` on a fraction (the only use in TRSO: line 9) -/
 theorem denL_simplifyCast_frac (S : LeafSem card leaf) {n d e : Expr} (hn : Good S n) (hd : Good S d)
     (h : simplifyCast (.frac n d) = .ok e) (σ : Val) :
-    denL card leaf e σ = denL card leaf n σ / denL card leaf d σ := by
-  sorry
+    denL card leaf e σ = denL card leaf n σ / denL card leaf d σ :=
+  denL_fracSimplify S hn hd h σ
 
 end Trso
 end Y0
